@@ -805,6 +805,7 @@ def rules_c06(ctx, rep):
 def rules_c07(ctx, rep):
     cfgs = configs(ctx)
     base_checks(ctx, rep, cfgs)
+    rule_automata(ctx, rep, cfgs, want=('G20',))      # kind `withheld`: decided items are not kept behind an edge (reference: the DFA)
     rule_partial(ctx, rep, cfgs)
     rule_promptness(ctx, rep, cfgs)
     rule_graph(ctx, rep, cfgs, want=('G6b', 'G3'))
